@@ -28,7 +28,8 @@ class C25(Check):
                 {"pre": [1001, 0, 1003, 0, 0], "range": (1000, 1005), "seed": 1, "mode": "gather"},
                 {"pre": [0, 0, 0, 0, 0], "range": (1000, 1006), "seed": 2, "mode": "scan"},
                 {"pre": [0, 1001], "range": (1000, 1003), "seed": 4, "mode": "reserve"},
-                {"pre": [0, 0], "range": (1000, 1004), "seed": 5, "mode": "reserve"}]
+                {"pre": [0, 0], "range": (1000, 1004), "seed": 5, "mode": "reserve"},
+                {"pre": [0, 0, 0], "range": (1000, 1006), "seed": 6, "mode": "reconnect"}]
 
     def gen_cases(self):
         rng = self.rng
@@ -44,8 +45,8 @@ class C25(Check):
                 if a in seen:
                     pre[i] = 0
                 seen.add(a)
-            mode = rng.choice(["gather", "gather", "scan", "reserve"])
-            if mode == "reserve":
+            mode = rng.choice(["gather", "gather", "scan", "reserve", "reconnect"])
+            if mode in ("reserve", "reconnect"):
                 hi += 2          # room for the addresses reserved ahead of time
             case = {"pre": pre, "range": (lo, hi), "seed": rng.randrange(1 << 30), "mode": mode}
             if mode == "gather" and rng.random() < 0.3:
@@ -122,10 +123,30 @@ class C25(Check):
                         t.set_name(f"T{i}")
                     res = await asyncio.wait_for(asyncio.gather(*tasks, return_exceptions=bool(case.get("damage"))), 120)
                     res = [None if isinstance(r, BaseException) else r for r in res]      # a request in the damaged frame failed: no address
-                elif case["mode"] == "reserve":
+                elif case["mode"] in ("reserve", "reconnect"):
                     # addresses are reserved ahead of time (an address once returned "will never be handed out again"),
                     # a scan assigns the unaddressed terminals, then the rest of the range is reserved
                     held = [await asyncio.wait_for(ec.find_free_address(), 120)]
+                    if case["mode"] == "reconnect":
+                        # the master object connects a second time (as FastEtherCat.connect() followed by run() does): what it
+                        # handed out before stays handed out
+                        class FakeSock:
+                            def bind(self, *a):
+                                pass
+                        tr._sock = FakeSock()
+                        loop = asyncio.get_event_loop()
+
+                        async def fake_endpoint(factory, **kw):
+                            proto = factory()
+                            proto.connection_made(tr)
+                            return tr, proto
+                        old_task = ec._sendloop_task
+                        loop.create_datagram_endpoint = fake_endpoint
+                        try:
+                            await ec.connect()
+                        finally:
+                            del loop.create_datagram_endpoint
+                        old_task.cancel()
                     d = await asyncio.wait_for(ec.scan_serial_numbers(), 120)
                     res = [d.get(100 + i) for i in range(n)]
                     free_left = (case["range"][1] - case["range"][0] + 1) - len(set(r for r in res if r and case["range"][0] <= r <= case["range"][1])) - 1
@@ -213,7 +234,7 @@ class C25(Check):
 
     def rule(self):
         return ("buses of 1-8 terminals, each unaddressed or pre-assigned (inside or outside the range), address range only 0-3 larger than the terminal count so that "
-                "draws collide, concurrent assigned_address tasks (or scan_serial_numbers), scripted randint and random response delays; 30% of the concurrent cases with one response frame cut short (requests in it may fail, addresses handed out are still checked); non-trivial = at least two unaddressed terminals")
+                "draws collide, concurrent assigned_address tasks (or scan_serial_numbers, also after addresses were reserved ahead and after a second connect() of the same master object), scripted randint and random response delays; 30% of the concurrent cases with one response frame cut short (requests in it may fail, addresses handed out are still checked); non-trivial = at least two unaddressed terminals")
 
     def distribution(self, cases, observed):
         d = {"draws": 0, "collisions": 0, "probes_answered": 0, "scan_mode": 0}
